@@ -204,13 +204,14 @@ fn main() {
     }
     // behaviour sets of the conformance shape: (0..n).into_par_iter().map_init(init, f).collect::<Result<Vec<_>,_>>()
     let mut conformance = serde_json::Map::new();
-    for n in 0..=4usize {
-        for fail in std::iter::once(None).chain((0..n).map(Some)) {
+    let conf_n = if quick { 4usize } else { 5 };
+    for n in 0..=conf_n {
+        for fail in failure_plans(n) {
             let mut set: BTreeSet<String> = BTreeSet::new();
             let st = explore(
                 |env| {
                     with_env(env, || {
-                        let r: Result<Vec<usize>, usize> = (0..n).into_par_iter().map_init(|| 0u8, |_, i| if Some(i) == fail { Err(i) } else { Ok(i) }).collect();
+                        let r: Result<Vec<usize>, usize> = (0..n).into_par_iter().map_init(|| 0u8, |_, i| if fail.contains(&i) { Err(i) } else { Ok(i) }).collect();
                         r
                     });
                     abstract_events(&model::take_events())
@@ -235,6 +236,7 @@ fn main() {
         "violations": violations,
         "machinery": machinery,
         "conformance_behaviours": conformance,
+        "conformance_max_n": conf_n,
     });
     let dir = root.join(".build");
     let _ = std::fs::create_dir_all(&dir);
